@@ -142,6 +142,7 @@ class MdWorld:
         self.mddir = os.path.join(self.chdir, "metadata")
         os.makedirs(self.mddir)
         self.ids = Ids()
+        self.sparse = False     # a sample without fields has been written
         self.tokens = {}
         self.events = []
         self.readers = {}
@@ -201,6 +202,8 @@ class MdWorld:
                     rec(item, pre + key + "/")
 
         rec(grp, "")
+        if not out:
+            return [0] * len(self.cfg.schema)
         if sorted(out) != self.cfg.schema:
             return [-1]
         return [self.ids.id(out[p]) for p in self.cfg.schema]
@@ -245,6 +248,9 @@ class MdWorld:
 
     def _sample_ids(self, d):
         fl = flatten(d)
+        if not fl:
+            self.sparse = True
+            return [0] * len(self.cfg.schema)      # 0: the sample does not have this leaf
         if sorted(fl) != self.cfg.schema:
             raise DriverError("generated sample does not follow the scenario's schema: %s" % sorted(fl))
         return [self.ids.id(fl[p]) for p in self.cfg.schema]
@@ -281,6 +287,20 @@ class MdWorld:
 
         self._call(ev, fn)
         self.rf_next = start + nsamples
+        return ev
+
+    def age(self, secs):
+        """time passes: every file of the tree is `secs` older"""
+        ev = dict(ev="age", secs=int(secs))
+
+        def fn():
+            for dp, _, fns in os.walk(self.top):
+                for f in fns:
+                    p = os.path.join(dp, f)
+                    st = os.stat(p)
+                    os.utime(p, ns=(st.st_atime_ns - int(secs) * 10**9, st.st_mtime_ns - int(secs) * 10**9))
+
+        self._call(ev, fn)
         return ev
 
     def close(self):
@@ -434,7 +454,10 @@ def placement_sweep(digital_rf, root, n, d, fc, sc, js, limbs, sub_fields, prefi
     if os.path.exists(root):
         shutil.rmtree(root)
     os.makedirs(root)
-    w = digital_rf.DigitalMetadataWriter(root, sc, fc, n, d, prefix)
+    # whole-number floats are accepted as parameters (e.g. file_cadence_secs=3600/60, sample_rate_numerator=1e9): every
+    # second configuration passes those that are exactly representable as floats
+    asf = (lambda v: float(v) if v < 2**53 else v) if (n + d + fc + sc) % 2 == 0 else (lambda v: v)
+    w = digital_rf.DigitalMetadataWriter(root, asf(sc), asf(fc), asf(n), asf(d), prefix)
     rd_old = digital_rf.DigitalMetadataReader(root)
     pat = re.compile(r"^" + re.escape(prefix) + r"@(\d+)\.h5$")
     evs = []
